@@ -52,6 +52,19 @@ class OdeLin(ODE):
         return du + params.eq_params["a"] * u(t, params) - params.eq_params["b"] * jnp.cos(self.w * t)
 
 
+class OdeVec(ODE):
+    """two-component residual: (u0' - a u1, u1' + b u0 - cos(t))"""
+
+    def equation(self, t, u, params):
+        tt = jnp.reshape(t, ())
+        f = lambda s: u(jnp.reshape(s, jnp.shape(t)), params).reshape(-1)  # noqa: E731
+        du = jax.jacfwd(f)(tt)
+        uu = f(tt)
+        a = jnp.reshape(params.eq_params["a"], ())
+        b = jnp.reshape(params.eq_params["b"], ())
+        return jnp.stack([du[0] - a * uu[1], du[1] + b * uu[0] - jnp.cos(tt)])
+
+
 class OdeLog(ODE):
     """u' - log(a) u - b   (a must stay > 0: the 'equation domain' fault)"""
 
@@ -105,7 +118,7 @@ class SysOde2(ODE):
         return dv + params_dict.eq_params["b"] * u_dict["u"](t, pu)
 
 
-EQ_KINDS = ["ode", "statio1", "statio2", "nonstatio1", "nonstatio2", "sysode"]
+EQ_KINDS = ["ode", "odevec", "statio1", "statio2", "nonstatio1", "nonstatio2", "sysode"]
 
 # ---------------------------------------------------------------------------
 # fault stages (optax transformations) -- injected through the optimizer
@@ -220,7 +233,7 @@ class Problem:
 
 def data_spec_for(eq, rng, small=True):
     """main generator spec (gensim format) for an equation kind"""
-    kind = {"ode": "ode", "sysode": "ode", "statio1": "statio", "statio2": "statio",
+    kind = {"ode": "ode", "odevec": "ode", "sysode": "ode", "statio1": "statio", "statio2": "statio",
             "nonstatio1": "nonstatio", "nonstatio2": "nonstatio"}[eq]
     for _ in range(100):
         s = gensim.gen_task(rng, kind, nmax=14)
@@ -259,7 +272,7 @@ def build(program):
     lw = program.get("weights", {})
     P.system = eq == "sysode"
 
-    if eq == "ode" or eq == "sysode":
+    if eq in ("ode", "odevec", "sysode"):
         in_dim, eq_type, dim_x = 1, "ODE", 0
     elif eq.startswith("statio"):
         dim_x = int(eq[-1])
@@ -270,7 +283,7 @@ def build(program):
     P.dim_x = dim_x
 
     if not P.system:
-        layers, _ = _mlp(key, in_dim, hidden)
+        layers, _ = _mlp(key, in_dim, hidden, dout=2 if eq == "odevec" else 1)
         u = jinns.utils.create_PINN(key, layers, eq_type, dim_x)
         P.u = u
         params = Params(nn_params=u.init_params(), eq_params=eqp)
@@ -284,22 +297,28 @@ def build(program):
     P.params = params
 
     form = program.get("form", 0)
-    if eq == "ode":
-        dyn = OdeLog() if form == "log" else OdeLin(w=2.0 if form == 0 else 3.0)
+    if eq in ("ode", "odevec"):
+        if eq == "odevec":
+            dyn = OdeVec()
+        else:
+            dyn = OdeLog() if form == "log" else OdeLin(w=2.0 if form == 0 else 3.0)
         kw = {}
         if dk == "both":
             kw["derivative_keys"] = jinns.parameters.DerivativeKeysODE.from_str(
                 params, dyn_loss="both", observations="both", initial_condition="nn_params")
         P.loss = jinns.loss.LossODE(
             u=u, dynamic_loss=dyn,
-            initial_condition=(float(program["data"]["tmin"]), 0.7) if terms.get("ic", True) else None,
+            initial_condition=(float(program["data"]["tmin"]), jnp.array([0.5, -0.3]) if eq == "odevec" else 0.7) if terms.get("ic", True) else None,
             loss_weights=jinns.loss.LossWeightsODE(dyn_loss=lw.get("dyn", 1.0), initial_condition=lw.get("ic", 1.0), observations=lw.get("obs", 1.0)),
             params=params, **kw)
     elif eq == "sysode":
         P.loss = jinns.loss.SystemLossODE(
             u_dict=P.u, dynamic_loss_dict={"e1": SysOde1(), "e2": SysOde2()},
             initial_condition_dict={"u": (float(program["data"]["tmin"]), 0.5), "v": (float(program["data"]["tmin"]), -0.3)} if terms.get("ic", True) else None,
-            loss_weights=jinns.loss.LossWeightsODEDict(dyn_loss=lw.get("dyn", 1.0), initial_condition=lw.get("ic", 1.0), observations=lw.get("obs", 1.0)),
+            loss_weights=jinns.loss.LossWeightsODEDict(
+                dyn_loss=({k: program["weights_dict"][k] for k in program["weights_dict"]["order"]}
+                          if program.get("weights_dict") else lw.get("dyn", 1.0)),
+                initial_condition=lw.get("ic", 1.0), observations=lw.get("obs", 1.0)),
             params_dict=params)
     elif eq.startswith("statio"):
         dyn = StatioLap() if form == 1 else StatioLin()
@@ -408,6 +427,8 @@ def build_obs(program):
             cols.append(lo + (hi - lo) * ((r * (0.23 + 0.1 * j) + 0.05) % 1.0))
     pin = np.stack(cols, axis=1).astype(dt)
     val = (0.5 * np.sin(pin.sum(axis=1)) + 0.1 * r / max(n, 1)).astype(dt)[:, None]
+    if program["eq"] == "odevec":
+        val = np.concatenate([val, (0.3 * np.cos(pin.sum(axis=1))).astype(dt)[:, None]], axis=1)
     if o.get("nan_row") is not None:
         val[o["nan_row"] % n, 0] = np.inf if o.get("nan_value") == "inf" else np.nan
     eq = {}
@@ -634,7 +655,7 @@ def fingerprint(params):
 
 
 def gen_rar_program(rng, r, tier, float_mode="x64"):
-    eq = rng.choice(["ode", "ode", "statio2", "nonstatio2", "sysode"])
+    eq = rng.choice(["ode", "odevec", "statio2", "nonstatio2", "sysode"])
     prog = {"float": float_mode, "eq": eq}
     prog["net"] = {"key": rng.randrange(2**31), "hidden": [rng.randint(3, 4)]}
     prog["eq_params"] = {"a": round(rng.uniform(0.5, 1.5), 3), "b": round(rng.uniform(0.5, 1.5), 3)}
@@ -660,7 +681,7 @@ def gen_rar_program(rng, r, tier, float_mode="x64"):
 
     rp = {"start_iter": rng.choice([0, 0, 1, 2, 3, 4, 5, 6, 30]), "update_every": rng.randint(1, 4)}
     rar = {"params": rp}
-    if eq in ("ode", "sysode"):
+    if eq in ("ode", "odevec", "sysode"):
         nt, nt_start, sel, samp, bt = sizes()
         rp.update(sample_size_times=samp, selected_sample_size_times=sel)
         rar["nt_start"] = nt_start
@@ -700,6 +721,12 @@ def gen_rar_program(rng, r, tier, float_mode="x64"):
     else:
         n_iter = rng.randint(4, 16)
     prog["segments"] = [{"n": n_iter}]
+    # stop / resume: the generator returned by solve is passed back in (the
+    # iteration clock restarts; the refinement count must carry on).  A resumed
+    # space-time RAR generator raises on the pinned tree: outside the supported space.
+    if eq != "nonstatio2" and n_iter >= 4 and rng.random() < 0.35:
+        cut = rng.randint(1, n_iter - 1)
+        prog["segments"] = [{"n": cut}, {"n": n_iter - cut, "resume": "full"}]
     prog["driver"] = "M2"
     prog["also_M1"] = rng.random() < 0.3
     return prog
@@ -719,33 +746,54 @@ def _snap_data(d):
 
 
 def run_rar(program, P=None):
-    """Run the RAR program under M2 (and optionally M1); returns per-iteration
-    snapshots of the generator, the parameters and the hook events."""
+    """Run the RAR program under M2 (and optionally M1), segment after
+    segment (only what solve returned survives between segments).  T.snaps[i]
+    = (generator before, generator after) global iteration i, T.params[i]
+    likewise, T.events = hook events with global iteration indices, T.bounds =
+    (global iteration, generator returned by the previous call, generator at
+    the start of the resumed call)."""
     P = P or build(program)
-    n = program["segments"][0]["n"]
     T = RarTrace()
     T.P = P
-    if not getattr(_rar_mod, "_VERIF", False) or not hasattr(_rar_mod, "_VERIF_SINK"):
-        T.hook = False
-    else:
-        T.hook = True
-        _rar_mod._VERIF_SINK.clear()
-    snaps, params = [], []
+    T.hook = bool(getattr(_rar_mod, "_VERIF", False)) and hasattr(_rar_mod, "_VERIF_SINK")
 
-    def obs(c):
-        snaps.append(_snap_data(c[4].data))
-        params.append(c[2].params)
+    def one(driver, collect):
+        snaps, params, events, bounds = [], [], [], []
+        p, d, o = P.params, P.data, None
+        offset = 0
+        out = None
+        for seg in program["segments"]:
+            n = seg["n"]
+            if T.hook:
+                _rar_mod._VERIF_SINK.clear()
+            loc_s, loc_p = [], []
 
-    out, _ = call_solve(P, n, P.params, P.data, None, None, None, driver="M2", observer=obs)
-    jax.effects_barrier()
-    T.snaps, T.params, T.out = snaps, params, out
-    T.events = list(_rar_mod._VERIF_SINK) if T.hook else []
+            def obs(c):
+                loc_s.append(_snap_data(c[4].data))
+                loc_p.append(c[2].params)
+
+            out, _ = call_solve(P, n, p, d, None, None, o, driver=driver, observer=obs if collect else None)
+            jax.effects_barrier()
+            if T.hook:
+                for e in _rar_mod._VERIF_SINK:
+                    e = dict(e)
+                    e["iteration"] = np.asarray(int(e["iteration"]) + offset)
+                    events.append(e)
+            if collect:
+                if len(loc_s) != n + 1:
+                    raise Violation(program.get("prop", "C16"), "iteration-count", "iteration-count/carries", {"got": len(loc_s), "n": n})
+                if snaps:
+                    # resumed call: what init_rar + the warm-up draw did to the returned generator
+                    bounds.append((offset, snaps[-1][1], loc_s[0]))
+                for j in range(n):
+                    snaps.append((loc_s[j], loc_s[j + 1]))
+                    params.append((loc_p[j], loc_p[j + 1]))
+            p, d, o = out[0], out[3], out[5]
+            offset += n
+        return out, snaps, params, events, bounds
+
+    T.out, T.snaps, T.params, T.events, T.bounds = one("M2", True)
     T.m1 = None
     if program.get("also_M1"):
-        if T.hook:
-            _rar_mod._VERIF_SINK.clear()
-        out1, _ = call_solve(P, n, P.params, P.data, None, None, None, driver="M1")
-        jax.effects_barrier()
-        T.m1 = out1
-        T.events_m1 = list(_rar_mod._VERIF_SINK) if T.hook else []
+        T.m1, _, _, T.events_m1, _ = one("M1", False)
     return T
